@@ -6,7 +6,7 @@ ID = "C04"
 GEN = ["MapHooks.lean", "LockDiscipline.lean", "MapFlow.lean"]   # atomic sites + hooks of map.go regenerated from the source (tie 4B)
 RULE = ("concurrent: step-level traces of the real code under the controlled scheduler, replayed label for label in the Lean transition system Model.SyncMapConc (judge C04conc); "
         "API-level histories under the controlled scheduler (every schedule with <= 2 preemptions of a catalogue of 2-3 goroutine programs; random programs and schedules) "
-        "and native runs (also under the race detector), judged by the Lean driver for linearizability to map[K]V and for the Range predicate; sequential: histories of load/store/loadorstore/loadanddelete/delete/range over 5 keys (small, so that promotion misses >= len(dirty), expunge and unexpunge happen constantly), "
+        "and native runs (also under the race detector), judged by the Lean driver for linearizability to map[K]V and for the Range predicate; sequential: large maps (65..300 keys, thorough up to 1025: fill, promote, delete / rebuild / re-store / promote rounds) and histories of load/store/loadorstore/loadanddelete/delete/range over 5 keys (small, so that promotion misses >= len(dirty), expunge and unexpunge happen constantly), "
         "the internal layout (read/amended/dirty/misses/expunged/nil) observed through the verif hook after every call; non-trivial = at least one promotion-relevant miss and one delete")
 ASSUMPTIONS = ["data-race freedom in the Go-memory-model sense is not modelled (the model is sequentially consistent over atomic steps)",
                "atomic.Value, sync.Mutex and unsafe.Pointer loads are modelled by contract"]
@@ -15,6 +15,7 @@ ASSUMPTIONS = ["data-race freedom in the Go-memory-model sense is not modelled (
 def explore(core, rng, tier, seed, search=False):
     n, nops = (500, 40) if tier == "quick" else (20000, 200)
     scripts = [C04seq.history(rng, nops, rng.choice([2, 5, 5, 9])) for _ in range(n)]
+    scripts += [C04seq.bighistory(rng, N) for N in ((65, 130, 257, 300) if tier == "quick" else (63, 64, 65, 66, 100, 129, 255, 256, 257, 258, 300, 513, 1025))]
     nt = lambda sc: any(l.startswith(("loadanddelete", "delete")) for l in sc) and any(l.startswith("load ") for l in sc)
     r = scriptprop.explore(core, ID, scripts, nontrivial=nt)
     # ---- concurrent half: executions of the real code under the controlled scheduler and natively, judged by the Lean driver
